@@ -281,7 +281,7 @@ func writerStateRule(c *Ctx, rule string) {
 	}
 	for _, ref := range p.RefsTo(destroy) {
 		fn := ref.Caller
-		if fn.Name() == "doClose" {
+		if isFn(fn, "", "Client.doClose") {
 			r.OK(rule, "Client.doClose destroys the writer", p.Pos(ref.Instr.Pos()), "terminal teardown: nothing runs afterwards")
 			continue
 		}
